@@ -363,7 +363,7 @@ class SimPool(bp.Pool):
 
 class MPart:
     __slots__ = ('i', 'owner', 'taken', 'finished', 'ready_delivered',
-                 'ack_delivered', 'ack_time', 'items')
+                 'ack_delivered', 'ack_time', 'items', 'detected_at')
 
     def __init__(self, i, items):
         self.i = i
@@ -374,6 +374,7 @@ class MPart:
         self.ready_delivered = False
         self.ack_delivered = False
         self.ack_time = None
+        self.detected_at = None
 
 
 class MJob:
@@ -694,6 +695,7 @@ class Sim:
                     # consumed only after its sender had been reaped (zone of
                     # the open finding D7)
                     mj.late_ack = True
+                    self.labels.add('ack_consumed_after_reap')
         elif kind == READY:
             job, i, res, _ = args
             if job not in self.pool._cache:
@@ -1076,6 +1078,14 @@ class Sim:
         for pid in before_pids - after_pids:
             self.reaps[pid] = tick_now
             self.by_pid[pid].reaped = True
+        # the supervision step at which a job's loss can first be noticed: its
+        # worker reaped AND its ACK consumed (the pool learns from the ACK where
+        # the job ran)
+        for mj in self.jobs:
+            for part in mj.parts.values():
+                if part.ack_delivered and part.owner in self.reaps and \
+                        getattr(part, 'detected_at', None) is None:
+                    part.detected_at = tick_now
         self.last_tick = tick_now
         self.ticks = getattr(self, 'ticks', 0) + 1
 
@@ -1560,7 +1570,7 @@ class Sim:
 
     # zones of findings that have since been repaired in /repo: open for good
     # (the code that stepped around them is kept for triage on older trees)
-    REPAIRED_ZONES = ('imap-loss',)
+    REPAIRED_ZONES = ('imap-loss', 'ack-after-reap')
 
     def allowed(self, zone):
         if zone in self.REPAIRED_ZONES:
